@@ -23,3 +23,6 @@ open RV.C03
 #print axioms hext_row_roundtrip
 #print axioms strip_resolves
 #print axioms strip_needs_nodot
+#print axioms strippable_rest_shape
+#print axioms strippable_resolves
+#print axioms strippable_needs
